@@ -9,34 +9,50 @@ LABELS = ['C07.once_iff_changed', 'C07.detached_silent', 'C07.no_stale_watchers'
 EXPLANATION = ("Harness c07.prog: a parent with a depends(watch=True) method over a path dependency set ('a.x' | 'a.x','a.y' | "
                "'a.x','a.b.x' | 'a.param') and pools of sub-objects; after every one of k symbolic operations the number of method "
                "calls is compared with a path-value model (values reached through the current path before vs after, both sides "
-               "resolving), operations on detached objects must be silent and detached objects must hold no watcher.")
+               "resolving), operations on detached objects must be silent and detached objects must hold no watcher; at one symbolic step the dependent method itself raises (the following steps must behave as if it had not); a variant has two methods through the same intermediate object ('a.b.x' and 'a.b.y'); leaf values include None.")
 STUBS = []
 OUTSIDE = ["operations that make a dependency path start or stop resolving (attach from / detach to None): the statement only "
            "covers paths resolving both before and after, so no call count is asserted there", "paths deeper than 2",
            "more than 3 + 2 pool objects"]
 ASSUMPTIONS = ["leaf values symbolic unbounded ints"]
-VARIANTS = [('a.x',), ('a.x', 'a.y'), ('a.x', 'a.b.x'), ('a.param',), ('a.x', 'c.y'), ('a.b', 'a.b.x')]
-N_OPS = 7
+VARIANTS = [('a.x',), ('a.x', 'a.y'), ('a.x', 'a.b.x'), ('a.param',), ('a.x', 'c.y'), ('a.b', 'a.b.x'), ('a.b.x',)]
+DEPS2 = {6: ('a.b.y',)}      # variant 6: a second method through the same intermediate object
+N_OPS = 8
+NONE_CODE = -1               # this leaf value stands for None (the leaves allow None)
+
+
+class Boom(Exception):
+    pass
 
 
 class Node(param.Parameterized):
-    x = param.Integer(default=0)
-    y = param.Integer(default=0)
+    x = param.Integer(default=0, allow_None=True)
+    y = param.Integer(default=0, allow_None=True)
     b = param.ClassSelector(class_=param.Parameterized, default=None)
 
 
-def _mk_top(deps, sub=False):
+def _mk_top(deps, sub=False, deps2=None):
     class Top(param.Parameterized):
         a = param.ClassSelector(class_=Node, default=None)
         c = param.ClassSelector(class_=Node, default=None)
 
         def __init__(self, **kw):
             self.calls = 0
+            self.calls2 = 0
+            self.boom = False
             super().__init__(**kw)
 
         @param.depends(*deps, watch=True)
         def m(self):
             self.calls += 1
+            if self.boom:           # armed by the harness for one step: the dependent method itself fails
+                self.boom = False
+                raise Boom()
+
+        if deps2:
+            @param.depends(*deps2, watch=True)
+            def m2(self):
+                self.calls2 += 1
     class Top2(Top):       # the dependent method is inherited, not declared, by the instantiated class
         pass
     return Top2 if sub else Top
@@ -47,10 +63,11 @@ def _nwatchers(o):
 
 
 def prog(variant: int, k: int, nm: int, inh: bool, o1: int, i1: int, v1: int, o2: int, i2: int, v2: int, o3: int, i3: int, v3: int,
-         o4: int, i4: int, v4: int) -> None:
+         o4: int, i4: int, v4: int, bs: int = -1) -> None:
     deps = VARIANTS[variant]
+    deps2 = DEPS2.get(variant)
     with untraced():
-        Top = _mk_top(deps, inh)
+        Top = _mk_top(deps, inh, deps2)
         # explicit, identical names: with 'a.param' the auto-generated names would make every replacement a change
         mids = [Node(name='cfg'), Node(name='cfg'), Node(name='cfg')]
         leaves = [Node(name='leaf'), Node(name='leaf')]
@@ -61,7 +78,7 @@ def prog(variant: int, k: int, nm: int, inh: bool, o1: int, i1: int, v1: int, o2
     mv = [[0, 0], [0, 0], [0, 0]]
     lv = [[0, 0], [0, 0]]
 
-    def reach():
+    def reach(deps=deps):
         """per dependency: (resolves?, value)"""
         out = []
         for d in deps:
@@ -77,6 +94,8 @@ def prog(variant: int, k: int, nm: int, inh: bool, o1: int, i1: int, v1: int, o2
                 out.append((True, ('obj', sub[cur])))
             elif d == 'a.b.x':
                 out.append((True, lv[sub[cur]][0]) if sub[cur] is not None else (False, None))
+            elif d == 'a.b.y':
+                out.append((True, lv[sub[cur]][1]) if sub[cur] is not None else (False, None))
             else:   # a.param: every parameter of the attached object
                 out.append((True, (0, mv[cur][0], mv[cur][1], sub[cur])))       # names are identical: only x, y, b count
         return out
@@ -84,60 +103,71 @@ def prog(variant: int, k: int, nm: int, inh: bool, o1: int, i1: int, v1: int, o2
     for step, (o, i, v) in enumerate(((o1, i1, v1), (o2, i2, v2), (o3, i3, v3), (o4, i4, v4))[:k]):
         o = pick(o, 0, N_OPS - 1)
         cover('C07.op%d' % o)
+        if o in (2, 3, 5, 7) and v == NONE_CODE:
+            v = None                 # leaves may hold None: None, 0 and other values are all different
         before = reach()
+        before2 = reach(deps2) if deps2 else None
+        cur0 = cur
         calls0 = t.calls
+        calls20 = t.calls2
         on_path = True
+        t.boom = (step == bs)        # at one (symbolic) step the dependent method raises after having been called
+        # the model is updated first: an exception escaping the dependent method leaves the assignment itself done
+        real = None
         if o == 0:      # attach / replace at depth 1
             i = pick(i, 0, nm - 1)
-            t.a = mids[i]
             cur = i
+            real = lambda: setattr(t, 'a', mids[i])
         elif o == 1:    # detach
-            t.a = None
             cur = None
+            real = lambda: setattr(t, 'a', None)
         elif o in (2, 3):    # leaf assignment on a mid object (attached or not)
             i = pick(i, 0, nm - 1)
-            if o == 2:
-                mids[i].x = v
-                mv[i][0] = v
-            else:
-                mids[i].y = v
-                mv[i][1] = v
             on_path = (cur == i) or (curc == i)
+            if o == 2:
+                mv[i][0] = v
+                real = lambda: setattr(mids[i], 'x', v)
+            else:
+                mv[i][1] = v
+                real = lambda: setattr(mids[i], 'y', v)
         elif o == 6:    # attach / replace / detach at the second root
             i = pick(i, 0, nm)
-            t.c = mids[i] if i < nm else None
             curc = i if i < nm else None
+            real = lambda: setattr(t, 'c', mids[i] if i < nm else None)
         elif o == 4:    # attach / replace at depth 2
             i = pick(i, 0, nm - 1)
             j = pick(v, 0, 2)
             assume(0 <= j <= 2)
-            mids[i].b = leaves[j] if j < 2 else None
             sub[i] = j if j < 2 else None
             on_path = (cur == i)
-        else:           # assignment on a depth-2 leaf
+            real = lambda: setattr(mids[i], 'b', leaves[j] if j < 2 else None)
+        elif o == 5:    # assignment on a depth-2 leaf
             j = pick(i, 0, 1)
-            leaves[j].x = v
             lv[j][0] = v
             on_path = cur is not None and sub[cur] == j
+            real = lambda: setattr(leaves[j], 'x', v)
+        else:           # o == 7: assignment of y on a depth-2 leaf
+            j = pick(i, 0, 1)
+            lv[j][1] = v
+            on_path = cur is not None and sub[cur] == j
+            real = lambda: setattr(leaves[j], 'y', v)
+        try:
+            real()
+            boomed = False
+        except Boom:
+            boomed = True
+        t.boom = False
         after = reach()
         got = t.calls - calls0
-        info = {'op': o, 'variant': list(deps), 'variant_id': variant, 'step': step, 'on_path': on_path}
+        info = {'op': o, 'variant': list(deps), 'variant_id': variant, 'step': step, 'on_path': on_path, 'method_raised': boomed,
+                'after_raise': 0 <= bs < step}
         if not on_path:
-            check('C07.detached_silent', got == 0, dict(info, got=got))
+            check('C07.detached_silent', got == 0 and t.calls2 == calls20, dict(info, got=got))
         else:
-            same_resolution = all(b[0] == a[0] for b, a in zip(before, after))
-            if same_resolution:
-                changed = False
-                for b, a in zip(before, after):
-                    if b[0] and (True if b[1] != a[1] else False):
-                        changed = True
-                objvalued = ((deps == ('a.param',) and any(b[0] and b[1][3] is not None for b in list(before) + list(after)))
-                             or ('a.b' in deps and any(b[0] and isinstance(b[1], tuple) and b[1][0] == 'obj' and b[1][1] is not None
-                                                       for b in list(before) + list(after))))
-                if changed or not objvalued:
-                    # (equality of Parameterized-valued parameters reached through 'a.param' is not fixed by the statement:
-                    #  a spurious call for an unchanged sub-object value is not asserted against)
-                    check('C07.once_iff_changed', got == (1 if changed else 0), dict(info, got=got, changed=changed))
+            rootnone = cur0 is None or cur is None
+            _judge(deps, before, after, got, info, rootnone)
+            if deps2:
+                _judge(deps2, before2, reach(deps2), t.calls2 - calls20, dict(info, method='m2'), rootnone)
         # detached objects keep no watcher on the parent's behalf
         attached_mid = cur
         attached_leaf = sub[cur] if cur is not None else None
@@ -145,16 +175,42 @@ def prog(variant: int, k: int, nm: int, inh: bool, o1: int, i1: int, v1: int, o2
             if idx != attached_mid and not ('c.y' in deps and idx == curc):
                 check('C07.no_stale_watchers', _nwatchers(mobj) == 0, dict(info, obj='mid%d' % idx, n=_nwatchers(mobj)))
         for idx, lobj in enumerate(leaves):
-            if idx != attached_leaf or ('a.b.x' not in deps and 'a.b' not in deps):
+            if idx != attached_leaf or not any(d.startswith('a.b') for d in deps + (deps2 or ())):
                 if not (deps == ('a.param',)):
                     check('C07.no_stale_watchers', _nwatchers(lobj) == 0, dict(info, obj='leaf%d' % idx, n=_nwatchers(lobj)))
+
+
+def _judge(deps, before, after, got, info, rootnone):
+    same_resolution = all(b[0] == a[0] for b, a in zip(before, after))
+    if not same_resolution:
+        return
+    if rootnone and info['op'] in (0, 1) and any(not b[0] for b in before):
+        # the root itself starts / stops resolving underneath a dependency that resolves on neither side: a prefix of the
+        # path changes resolution, which the statement (paths resolving both before and after) does not cover
+        return
+    changed = False
+    for b, a in zip(before, after):
+        if b[0] and (True if b[1] != a[1] else False):
+            changed = True
+    objvalued = ((deps == ('a.param',) and any(b[0] and b[1][3] is not None for b in list(before) + list(after)))
+                 or ('a.b' in deps and any(b[0] and isinstance(b[1], tuple) and b[1][0] == 'obj' and b[1][1] is not None
+                                           for b in list(before) + list(after))))
+    if changed or not objvalued:
+        # (equality of Parameterized-valued parameters reached through 'a.param' is not fixed by the statement:
+        #  a spurious call for an unchanged sub-object value is not asserted against)
+        check('C07.once_iff_changed', got == (1 if changed else 0), dict(info, got=got, changed=changed))
+
+
+def _nops(variant):
+    return 8 if variant == 6 else (7 if variant == 4 else 6)
 
 
 def _ranges(consts):
     r = {}
     for n in (1, 2, 3, 4):
-        r['o%d' % n] = (0, N_OPS - 1 if consts['variant'] == 4 else N_OPS - 2)
+        r['o%d' % n] = (0, _nops(consts['variant']) - 1)
         r['i%d' % n] = (0, consts['nm'])
+    r['bs'] = (0, consts['k'] - 2)        # the raising step is never the last one (bs = -1, never, is a shard constant)
     return r
 
 
@@ -166,19 +222,32 @@ def shards(tier):
     q = tier == 'quick'
     k = 3 if q else 4
     for variant in range(len(VARIANTS)):
-        nops = N_OPS if variant == 4 else N_OPS - 1
+        nops = _nops(variant)
         for o1 in range(nops):
+            if variant == 6 and o1 == 6:
+                continue       # the second root is only watched in variant 4
             if q and variant in (0, 1, 4) and o1 in (4, 5):
                 continue       # quick: depth-2 operations first only for the variants that have a depth-2 dependency
+            if q and variant == 6 and o1 in (1, 2, 3):
+                continue
             for o2 in range(nops):
+                if variant == 6 and o2 == 6:
+                    continue
                 c = dict(variant=variant, k=k, o1=o1, o2=o2, nm=2 if q else 3, inh=(variant in (2, 5)))
+                if variant == 6:
+                    c.update(k=4, nm=2)
                 if k < 4:
                     c.update(o4=0, i4=0, v4=0)
-                out.append(dict(name='v%d_o%d%d' % (variant, o1, o2), module='harness.c07', fn='prog', consts=c,
+                out.append(dict(name='v%d_o%d%d' % (variant, o1, o2), module='harness.c07', fn='prog', consts=dict(c, bs=-1),
                                 budget_s=60 if q else 600))
+                if o1 in (0, 4) and variant in ((2, 6) if q else (0, 2, 4, 5, 6)):
+                    # the same programs with the dependent method raising at a symbolic step
+                    out.append(dict(name='boom_v%d_o%d%d' % (variant, o1, o2), module='harness.c07', fn='prog', consts=dict(c),
+                                    budget_s=60 if q else 600))
     return out
 
 
 def bounds(tier):
     return dict(program_length=3 if tier == 'quick' else 4, dependency_sets=[list(v) for v in VARIANTS], mid_pool=2 if tier == 'quick' else 3, leaf_pool=2,
-                opcodes=['attach mid i', 'detach', 'set x on mid i', 'set y on mid i', 'attach leaf j (or None) under mid i', 'set x on leaf j', 'attach mid i (or None) at the second root c'])
+                opcodes=['attach mid i', 'detach', 'set x on mid i', 'set y on mid i', 'attach leaf j (or None) under mid i', 'set x on leaf j', 'attach mid i (or None) at the second root c', 'set y on leaf j'],
+                method_raises='at one symbolic step (or never) the dependent method raises after being called', leaf_values='ints and None')
